@@ -324,6 +324,35 @@ def rule_dp6(ctx: Ctx) -> RuleResult:
             "on the path [%s] the accumulator returns the flag %s without consulting batch_size: a batch that this very item completes "
             "(batch_size == 1, or the item right after an emitted batch) is not flagged and is emitted one item late" % (
                 "; ".join(e.brief() for e in p.trace if e.k == "decision"), show(flag)), trace_of(p)))
+        # exact form: the flag is  len(batch) == batch_size  (or a decision of that form selecting a constant flag)
+        tests = []
+        if flag[0] == "cmp":
+            tests.append((flag, True, None))
+        for e in p.trace:
+            if e.k == "decision" and any(x[0] == "param" and x[1] == "batch_size" for x in subterms(e.test)):
+                tests.append((e.test, e.outcome, flag))
+        for t, outcome, const_flag in tests:
+            nf = normalise_cmp(t, True)
+            good = False
+            why = "not an arithmetic comparison"
+            if nf is not None:
+                op, co, c = nf
+                co = dict(co)
+                ln = [k for k in co if k[0] == "call" and k[1] == ("builtin", "len")]
+                bs = [k for k in co if k[0] == "param" and k[1] == "batch_size"]
+                if len(co) == 2 and len(ln) == 1 and len(bs) == 1:
+                    sgn = 1 if co[ln[0]] > 0 else -1
+                    op2 = op if sgn == 1 else {"GtE": "LtE", "LtE": "GtE", "Gt": "Lt", "Lt": "Gt"}.get(op, op)
+                    good = co[ln[0]] * sgn == 1 and co[bs[0]] * sgn == -1 and c == 0 and op2 in ("Eq", "GtE")
+                    why = "it tests len(batch) %+d %s batch_size" % (c * sgn, op2)
+                    if good and const_flag is not None:
+                        good = const_flag == ("const", bool(outcome))
+                        why = "the flag returned under this test is %s" % show(const_flag)
+                else:
+                    why = "operands are not len(batch) and batch_size"
+            r.ob(good, lambda t=t, why=why: Finding(
+                "DP-6", "%s::batch._batch{flag-form}" % rel, m.where(accfn),
+                "a batch is complete exactly when len(batch) == batch_size; the flag is decided by '%s': %s" % (show(t), why), trace_of(p)))
         # the item must be in the returned batch
         batch = v[1]
         has_item = any(x == ITEM for x in subterms(batch)) or any(
